@@ -110,9 +110,14 @@ theorem F15_common_value : inhB tF15 8 [] 2 vF15 = true ∧ inhB tF15 8 [] 3 vF1
 theorem F15_repaired : typesOverlap tF15 8 2 3 = some true ∧ typesOverlap tF15 8 3 2 = some true := by
   decide
 theorem F15_same_field_disjoint_types : typesOverlap tF15 8 2 4 = some false := by decide
-/-- the intersection `(x: int) & (y: int)` of the spec's `'rw` example is no longer `never` -/
+/-- the intersection `(x: int) & (y: int)` of the spec's `'rw` example is no longer `never`: with
+5646380 it was the left operand (the fallback of `intersect_pair`), since 02d463a it is `(x: int, y: int)` -/
 theorem F15_intersection_not_never :
-    (intersect Variant.current 16 8 tF15 2 3).map (·.2) = some 2 := by decide
+    (intersect { partialIntersectKeepsLeft := true } 16 8 tF15 2 3).map (·.2) = some 2 ∧
+      ∃ T' r, intersect Variant.current 16 8 tF15 2 3 = some (T', r) ∧
+        T'.types[r]? = some (.part none [(2, 0), (3, 0)]) := by
+  refine ⟨by decide, _, _, rfl, ?_⟩
+  decide
 
 /-- f3628e7: 0 int, 1 bin, 2 `A(x: int)`, 3 `A[x: int]`, 4 `B[x: int]`, 5 `A[x: bin]`
 (A = 2, x = 3, B = 4) -/
@@ -638,10 +643,10 @@ theorem R7_repaired : isCompatible tR7 64 6 8 = some false := by decide
 theorem R7_converse_refused : isCompatible tR7 64 8 6 = some false ∧ isCompatible tR7u 64 14 6 = some false := by
   decide
 
-/-- A WRITTEN intersection of partial types (C02's finding, repair notes/C02-fixes/15): 0 int, 1 bin,
-2 `'r = (read: int)`, 3 `'w = (write: bin)` (read = 2, write = 3). `intersect_pair` has no arm for two
-partial types: the fallback keeps the LEFT operand when the two overlap, so `'r & 'w` resolves to `'r`,
-which `[read: 1]` inhabits. The proposed arm (`Variant.partialIntersectExact`) builds
+/-- A WRITTEN intersection of partial types (C02's finding, fixed by 02d463a): 0 int, 1 bin,
+2 `'r = (read: int)`, 3 `'w = (write: bin)` (read = 2, write = 3). `intersect_pair` had no arm for two
+partial types: the fallback kept the LEFT operand when the two overlap, so `'r & 'w` resolved to `'r`,
+which `[read: 1]` inhabits (`Variant.partialIntersectKeepsLeft`). The arm builds
 `(read: int, write: bin)`. (`intersect_keeps` holds for both: keeping the left operand is a superset.) -/
 def tRW : Table :=
   ⟨[.integer, .binary, .part none [(2, 0)], .part none [(3, 1)]], [⟨none, []⟩, ⟨some 1, []⟩]⟩
@@ -651,11 +656,12 @@ def vR : V := .tup none (.cons (some 2) (.int 1) .nil)
 def vRW : V := .tup none (.cons (some 2) (.int 1) (.cons (some 3) (.bin [2]) .nil))
 
 theorem RW_left_operand_kept :
-    (intersect Variant.current 16 8 tRW 2 3).map (·.2) = some 2 ∧ inhB tRW 8 [] 2 vR = true ∧
+    (intersect { partialIntersectKeepsLeft := true } 16 8 tRW 2 3).map (·.2) = some 2 ∧
+      inhB tRW 8 [] 2 vR = true ∧
       inhB tRW 8 [] 3 vR = false := by decide
 
 theorem RW_exact :
-    ∃ T' r, intersect { partialIntersectExact := true } 16 8 tRW 2 3 = some (T', r) ∧
+    ∃ T' r, intersect Variant.current 16 8 tRW 2 3 = some (T', r) ∧
       T'.types[r]? = some (.part none [(2, 0), (3, 1)]) ∧ inhB T' 8 [] r vR = false ∧
       inhB T' 8 [] r vRW = true := by
   refine ⟨_, _, rfl, ?_⟩
